@@ -47,7 +47,11 @@ CHECKS['C07'] = dict(level='fault_enumeration', ref='DESIGN.md 6 (C07)',
    text='Kill-point enumeration on the real code: each workload (every mutating method, inline and file values, streams, bulk removals, expired-head loops, transaction blocks incl. nested, aborted and BaseException-aborted ones) runs in a forked child that SIGKILLs itself immediately before its n-th database statement / file operation, for every n; '
         'a fresh handle then observes the directory and TLC validates victim log + observation against KillTrace.tla (completed calls present, interrupted call all-or-nothing, present keys readable, writable, debris only unreferenced files / empty directories, repair converges). Thorough adds asynchronous SIGKILL at random delays.',
    technique='kill-point enumeration at the SQLite/file boundary; each run validated against the TLA+ crash-recovery spec (KillTrace) with TLC')
-NOTES = {'C07': 'Trusted: SQLite atomic commit / WAL recovery and release of the write lock on process death; kill points are the boundary events of the victim (before each statement, file create/write/close/remove, directory create/remove); the lazy cull of writes is switched off in kill workloads (not observable per call). Deque/Index workloads are killed in C11/C12.', 'C08': CONC_NOTE + ' Faults are not injected into COMMIT/ROLLBACK (SQLite atomic commit trusted) nor into file removal (removing an existing file is assumed to succeed).', 'C05': CONC_NOTE, 'C06': CONC_NOTE, 'C03': SEQ_NOTE, 'C04': SEQ_NOTE, 'C09': SEQ_NOTE, 'C10': SEQ_NOTE}
+CHECKS['C14'] = dict(level='model_checking', ref='DESIGN.md 6 (C14)',
+   text='TimeoutClean / RetryWaits / ShardedNeverRaises / LockFreeLookupsUnaffected clauses of the TLA+ monitor: a call may end in Timeout only after a failed attempt to obtain the lock, without retry requested, having committed nothing and leaving no value file (quiescent agreement); bulk removals report their count; sharded caches report through False/None/default. '
+        'An independent raw SQLite connection holds the write lock under scheduler control (before the call, between the value-file write and BEGIN, released after 0/1/3 failed attempts) for every public data operation of Cache and FanoutCache, retry on/off, operator forms, settings that turn reads into writes; all schedules up to 2 preemptions are validated by TLC.',
+   technique='TLA+ monitor evaluated by TLC on scheduler-enumerated executions with a scheduled lock-holder')
+NOTES = {'C14': CONC_NOTE, 'C07': 'Trusted: SQLite atomic commit / WAL recovery and release of the write lock on process death; kill points are the boundary events of the victim (before each statement, file create/write/close/remove, directory create/remove); the lazy cull of writes is switched off in kill workloads (not observable per call). Deque/Index workloads are killed in C11/C12.', 'C08': CONC_NOTE + ' Faults are not injected into COMMIT/ROLLBACK (SQLite atomic commit trusted) nor into file removal (removing an existing file is assumed to succeed).', 'C05': CONC_NOTE, 'C06': CONC_NOTE, 'C03': SEQ_NOTE, 'C04': SEQ_NOTE, 'C09': SEQ_NOTE, 'C10': SEQ_NOTE}
 
 checks = []
 for pid, c in sorted(CHECKS.items()):
